@@ -25,7 +25,7 @@ checks = {
  "C06": ("DISTINCT, INCLUDES (end-point voxels in every result), EARLY-SINGLE, PASSTHRU (zooms and midpoint reporting through the recursion), THRESHOLD-AXIS (each termination threshold depends on the zoom of one axis only), WRAPPER, GUARD",
          "NOT decided: absence of gaps, 26-connectivity, 'only voxels the segment touches', termination thresholds (float midpoints vs voxel sizes)",
          "accumulator/def-use analysis, distinctness lattice, call-graph value identity"),
- "C07": ("KIND-LAYOUT (hZoom/x/y/vZoom/f with zooms copied; no float-formatted index), REM-SIGN (no bare % on a moved index), AXISSYM (x and y wrapped by isomorphic computations and conditions), NOWRAP-F (vertical index exactly f+dv), RANGE (symbolic interval analysis: printed x,y in [0, 2^h-1] on every path), GUARD (malformed ID -> empty ID)",
+ "C07": ("KIND-LAYOUT (hZoom/x/y/vZoom/f with zooms copied; no float-formatted index), REM-SIGN (no bare % on a moved index), FLOATGUARD (no refusal of a shift decided through float64 of the vertical index), AXISSYM (x and y wrapped by isomorphic computations and conditions), NOWRAP-F (vertical index exactly f+dv), RANGE (symbolic interval analysis: printed x,y in [0, 2^h-1] on every path), GUARD (malformed ID -> empty ID)",
          "not decided: that the float Pow/Mod/repeated-addition arithmetic equals mod 2^h (hence the algebraic laws)",
          "component-kind inference + expression-graph isomorphism"),
  "C08": ("REM-SIGN, STENCIL (partial evaluation of the constant loops: exactly the 6/8/26 offset sets, each once; N-layer nest = full box minus origin for every input ID), VIASHIFT, DISTINCT, GUARD (negative layers)",
@@ -37,13 +37,13 @@ checks = {
  "C10": ("KIND-LAYOUT/KIND-STORE/KIND-CALL (parser, printer, FieldParams and both notation permutations agree position by position), MAPORDER, ELEMENTWISE, MAXSEL (every zoom change of the expansion targets max(h,v); no ordering loses the voxel), NOCLAMP, narrowing index conversions, ID text used as a strings.Trim cut set, GUARD (arity)",
          "not decided: 4^d / 2^d count and region equality of the expansion",
          "component-kind/layout inference + ordering enumeration"),
- "C11": ("KIND-CALL (groups carry the request's zooms/height/base parameters; role wiring of HorizontalZoom/VerticalZoom), DISTINCT-PAIR (miss-then-insert on the cross-ID map), UNTRIMMED (a pre-sized pair list is cut to its fill count), ROUND over the closure, PER-ITERATION (fresh scratch lists), ELEMENTWISE (no cache carried between IDs), NOFLOAT (integer-only encoder/decoder), REUSE, ERRUSED, GUARD (zoom domains, arity, integer fields, maxHeight<minHeight)",
+ "C11": ("KIND-CALL (groups carry the request's zooms/height/base parameters; role wiring of HorizontalZoom/VerticalZoom), DISTINCT-PAIR (miss-then-insert on the cross-ID map), UNTRIMMED (a pre-sized pair list is cut to its fill count), no quadkey through float64, NOSKIP in both directions, ROUND over the closure, PER-ITERATION (fresh scratch lists), ELEMENTWISE (no cache carried between IDs), NOFLOAT (integer-only encoder/decoder), REUSE, ERRUSED, GUARD (zoom domains, arity, integer fields, maxHeight<minHeight)",
          "NOT decided: that the encoder is the bit interleaving and the decoder its inverse (loop-carried bit arithmetic)",
          "component-kind inference, dominance-based guard analysis, scenario path analysis"),
  "C12": ("ASHIFT/ROUND (all scaling is a signed shift = floor; no (b<<d | 1<<d) - 1 bit fill), RANGEUSE, INTERVAL (existence tests accept exactly [-2^z,2^z-1] / [0,2^z-1]), OUTRANGE (both returned bounds range-checked), UPPER-BOUND-FORM (scale(i+1)-1 only where the shift is known positive: found D11, fixed; D12 known finding), NOPARTIAL, KIND-LAYOUT (F vs key scale)",
          "NOT decided: the covering property itself (integer interval arithmetic over five unbounded parameters)",
          "rounding-mode classification + bound-expression shape analysis on SSA"),
- "C13": ("KIND-STORE/KIND-CALL (hZoom,x,y copied field for field, vZoom = request's), RANGE-LOOP (emitted range = the two results of this tile's range call, value identity, also through a helper that hands the range on), CACHE-KEY (a memo of the range call is keyed by every varying argument), ELEMENTWISE, COMPOSE, DISTINCT, NOPARTIAL, OUTRANGE, MAXSEL, GUARD (tile zooms two-sided)",
+ "C13": ("NOSKIP (no tile skipped on state kept from earlier tiles), KIND-STORE/KIND-CALL (hZoom,x,y copied field for field, vZoom = request's), RANGE-LOOP (emitted range = the two results of this tile's range call, value identity, also through a helper that hands the range on), CACHE-KEY (a memo of the range call is keyed by every varying argument), ELEMENTWISE, COMPOSE, DISTINCT, NOPARTIAL, OUTRANGE, MAXSEL, GUARD (tile zooms two-sided)",
          "not decided: that the emitted range is the covering range (C12's undecided part)",
          "component-kind inference + loop-bound value identity + call-graph composition"),
  "C14": ("REM-SIGN over the closure, INCLUDES (line IDs in every result variant: Unique/Union/Concat/appends flattened), FILTER-SUBSET (measured additions are current candidates behind distance < radius itself), LAYERFIT (layer counts = max fit over all line voxels), NOORDERDEP, DISTINCT, GUARD (negative radius, zooms, nil points)",
